@@ -124,7 +124,7 @@ def poolGet (e : Env) : Mem := e.pool
 def nilSl (m : Mem) : Sl := ⟨m.length, 0⟩
 
 /-- `ether.Payload()` as an argument of an encoder (nil = the empty slice without capacity) -/
-def etherPayload (m : Mem) (p : Sl) : Outcome Sl := do
+def etherPayloadArg (m : Mem) (p : Sl) : Outcome Sl := do
   match ← etherPayloadSl m p with
   | some s => pure s
   | none => pure (nilSl m)
